@@ -191,6 +191,18 @@ def check_removal_bookkeeping(rep: Rep, pre: str, comp: Competition) -> List[Eve
     return okc
 
 
+def _current_copy(w, comp, e, val) -> bool:
+    """e stores a copy of `val` (a field of the removed node) taken earlier in the same removal, stale only on account of
+    stores, none of which goes to `val` itself between the copy and e."""
+    v = e.value
+    if not (v[0] == "old" and v[1] == val and w.old_cause.get(v[2], {"?"}) <= {"store"}):
+        return False
+    copies = [b.seq for b in comp.events if b.kind == "bind" and b.value == val and b.seq < e.seq]
+    if not copies:
+        return False
+    return not any(s2.kind == "store" and s2.target == val and max(copies) < s2.seq < e.seq for s2 in comp.events)
+
+
 def check_fmax_competition(rep: Rep, pre: str, comp: Competition,
                            extra_store: Callable[[Event, UpdateSite], bool] = None) -> None:
     w = comp.walker
@@ -242,8 +254,12 @@ def check_fmax_competition(rep: Rep, pre: str, comp: Competition,
         # (7) bookkeeping in the accepted branch
         branch = stores_in_branch(comp, u)
         pred_ok = [e for e in branch if e.target == comp.field(q, "pred") and e.value == p and not e.aug]
-        lab_ok = [e for e in branch if e.target == comp.field(q, "predicted_label")
-                  and e.value == comp.field(p, "predicted_label") and not e.aug]
+        # q is not p in the accepted branch (v >= H.cost[p] cannot be strictly below H.cost[p]; or an explicit test), so a copy
+        # of p's label taken once per removal is still p's label there: only stores to q happen in between
+        q_not_p = rel == "v<h" or any(nm in ("p!=q", "not-removed", "outer-cost-strict") for nm in names)
+        lab_ok = [e for e in branch if e.target == comp.field(q, "predicted_label") and not e.aug
+                  and (e.value == comp.field(p, "predicted_label")
+                       or (q_not_p and _current_copy(w, comp, e, comp.field(p, "predicted_label"))))]
         rep.ev(pre + "IFT-pred", u.event, len(pred_ok) == 1,
                "accepted branch must set nodes[q].pred = p (the removed node)",
                construct="accepted branch of " + u.event.text())
